@@ -214,14 +214,21 @@ def check_config(acc: work.Acc, op: str, shape: str, uc: str, vc: str, kx: str, 
                     elif op == "pow":
                         want_dim, want_unit = tuple(a * n for a in dU), None
                     elif op == "root":
-                        want_dim = tuple(a // n for a in dU) if n else tuple(0 for _ in dU)
+                        if n and any(a % n for a in dU):
+                            # no such root exists among integer dimensions: only a refusal is right
+                            want_dim = "refused"
+                        else:
+                            want_dim = tuple(a // n for a in dU) if n else tuple(0 for _ in dU)
                         want_unit = None
                     elif op == "in_unit":
                         want_dim, want_unit = dV, V
                     else:
                         want_dim, want_unit = dU, U
                     got_dim = tuple(res.unit.dimension.exponents)
-                    if want_dim is not None and got_dim != want_dim:
+                    if want_dim == "refused":
+                        ok, why = False, (f"root {n} of a quantity whose dimension exponents {tuple(dU)} it does "
+                                          f"not divide returned dimension {got_dim} instead of being refused")
+                    elif want_dim is not None and got_dim != want_dim:
                         ok, why = False, f"dimension {got_dim} expected {want_dim}"
                     if want_unit is not None and res.unit is not want_unit:
                         ok, why = False, f"result unit {res.unit} expected {want_unit}"
@@ -293,7 +300,8 @@ if isinstance(r, Quantity):
     dU, dV = U.dimension.exponents, V.dimension.exponents
     want = dict(add=dU, sub=dU, mul=tuple(p + q for p, q in zip(dU, dV)) if shape in ('QQ', 'QU') else dU,
                 div=tuple(p - q for p, q in zip(dU, dV)) if shape in ('QQ', 'QU') else dU,
-                pow=tuple(p * {n} for p in dU), root=tuple(p // ({n} or 1) for p in dU) if {n} else tuple(0 for _ in dU),
+                pow=tuple(p * {n} for p in dU),
+                root=(tuple(p // ({n} or 1) for p in dU) if not any(p % ({n} or 1) for p in dU) else 'refused') if {n} else tuple(0 for _ in dU),
                 in_unit=dV, neg=dU, pos=dU, abs=dU)[op]
     if shape == 'NQ' and op == 'div':
         want = tuple(-p for p in dU)
@@ -350,7 +358,10 @@ def tasks_for(tier: str) -> List[List[Tuple]]:
             for kx in ("float", "dec", "int"):
                 src = f"({uc} ** {d})" if d else uc
                 cfgs.append(("root", "QN", src, src, kx, "int", d))
-        cfgs.append(("root", "QN", uc, uc, "float", "int", 2))
+        # roots the dimension does not allow, of either sign of the degree
+        for d in (2, -2, 3, -3):
+            cfgs.append(("root", "QN", uc, uc, "float", "int", d))
+            cfgs.append(("root", "QN", f"({uc} ** 3)", f"({uc} ** 3)", "dec", "int", 2 if d > 0 else -2))
     return [ch for ch in par.chunks(cfgs, 48)]
 
 
